@@ -35,6 +35,8 @@
 //! out, or answers late); their random draws (probe decision, probe index) go
 //! through the library's `verif_rand` seam and are environment choices.
 //! multi_stream's reconnect jitter gets the fixed value 0.5 from the same seam.
+//! Multi-response (AXFR/IXFR) requests on the stream transport have their own
+//! cases (`stream_xfr`), as have requests carrying EDNS data.
 //! Not covered: the `Queries` table in isolation (type is private; it is
 //! driven through the stream transport instead, including slot recycling).
 //! Built with the /repo feature `verif-hooks`, under which stream.rs measures
@@ -97,6 +99,65 @@ fn build_request(i: usize, q: usize) -> Rq {
     RequestMessage::new(msg).expect("request message")
 }
 
+/// The request of caller `i` in its EDNS form: the base message already has
+/// an additional A record and an OPT record (no DO, size 512); the caller
+/// then sets DO, adds an NSID option and sets the UDP payload size to 1400
+/// through the ComposeRequest interface.
+fn build_request_edns(i: usize, q: usize) -> Rq {
+    use domain::net::client::request::ComposeRequest;
+    let mut v = request_bytes(i, q);
+    v[11] = 2; // ARCOUNT
+    v.extend_from_slice(b"\x05extra\x07example\x00");
+    v.extend_from_slice(&[0, 1, 0, 1, 0, 0, 0, 9, 0, 4, 192, 0, 2, 1]);
+    v.extend_from_slice(&[0, 0, 41, 2, 0, 0, 0, 0, 0, 0, 0]);
+    let msg = Message::from_octets(v).expect("request bytes");
+    let mut r = RequestMessage::new(msg).expect("request message");
+    r.set_dnssec_ok(true);
+    r.add_opt(&domain::base::opt::Nsid::from_octets(Vec::<u8>::new()).expect("nsid")).expect("add_opt");
+    r.set_udp_payload_size(1400);
+    r
+}
+
+/// What must be on the wire for such a request: the question untouched (the
+/// caller checks that), the extra A record kept, exactly one OPT record with
+/// DO set and an NSID option, and the expected UDP payload size.
+fn check_edns_request(bytes: &[u8], want_size: u16) -> Result<(), String> {
+    let m = wire::read_message(bytes).map_err(|e| format!("unparseable: {e}"))?;
+    let add = &m.sections[2];
+    let opts: Vec<&wire::RawRecord> = add.iter().filter(|r| r.rtype == 41).collect();
+    if opts.len() != 1 {
+        return Err(format!("{}-opt-records", opts.len()));
+    }
+    if !add.iter().any(|r| r.rtype == 1 && r.rdata == [192, 0, 2, 1]) {
+        return Err("additional-record-lost".into());
+    }
+    let o = opts[0];
+    if o.ttl & 0x8000 == 0 {
+        return Err("do-bit-lost".into());
+    }
+    if o.class != want_size {
+        return Err(format!("udp-payload-size-{}-instead-of-{want_size}", o.class));
+    }
+    // options: code(2) len(2) data
+    let mut p = 0;
+    let mut nsid = false;
+    while p + 4 <= o.rdata.len() {
+        let code = u16::from_be_bytes([o.rdata[p], o.rdata[p + 1]]);
+        let len = u16::from_be_bytes([o.rdata[p + 2], o.rdata[p + 3]]) as usize;
+        if code == 3 {
+            nsid = true;
+        }
+        p += 4 + len;
+    }
+    if p != o.rdata.len() {
+        return Err("opt-rdata-malformed".into());
+    }
+    if !nsid {
+        return Err("nsid-option-lost".into());
+    }
+    Ok(())
+}
+
 #[derive(Clone, Copy, Debug, PartialEq, Eq)]
 enum RKind {
     Answer,
@@ -108,6 +169,8 @@ enum RKind {
     HdrErr,
     /// like Answer but QR clear
     Qr0,
+    /// Answer plus an OPT record with an edns-tcp-keepalive option (timeout in 100 ms units)
+    AnswerKeepalive(u16),
 }
 
 /// A reply built by hand. `owner`/`serial` make every produced message unique
@@ -121,17 +184,23 @@ fn mk_resp(id: u16, q: usize, kind: RKind, owner: usize, serial: u16) -> Vec<u8>
         RKind::AnswerTc => (0x8380, 1, 1),
         RKind::HdrErr => (0x8182, 0, 0),
         RKind::Qr0 => (0x0100, 1, 1),
+        RKind::AnswerKeepalive(_) => (0x8180, 1, 1),
     };
     v.extend_from_slice(&flags.to_be_bytes());
     v.extend_from_slice(&qd.to_be_bytes());
     v.extend_from_slice(&an.to_be_bytes());
-    v.extend_from_slice(&[0, 0, 0, 0]);
+    v.extend_from_slice(&[0, 0, 0, matches!(kind, RKind::AnswerKeepalive(_)) as u8]);
     if qd == 1 {
         v.extend_from_slice(&qwire(q));
     }
     if an == 1 {
         v.extend_from_slice(&[0xC0, 0x0C, 0, 1, 0, 1, 0, 0, 0, 60, 0, 4, 10, owner as u8]);
         v.extend_from_slice(&serial.to_be_bytes());
+    }
+    if let RKind::AnswerKeepalive(t) = kind {
+        // OPT: root, type 41, class 1232, ttl 0, rdlen 6: option 11, length 2, timeout
+        v.extend_from_slice(&[0, 0, 41, 0x04, 0xD0, 0, 0, 0, 0, 0, 6, 0, 11, 0, 2]);
+        v.extend_from_slice(&t.to_be_bytes());
     }
     v
 }
@@ -635,6 +704,10 @@ struct Core<'a> {
     excuse_all: bool,
     /// ... or this particular request
     excused: Vec<bool>,
+    /// callers build their requests in the EDNS form (see build_request_edns)
+    edns: bool,
+    /// an additional hand-driven task (the multi-response caller)
+    extra: Option<Slot<()>>,
     /// when the last complete message reached the client since this request's start
     last_traffic: Vec<Option<Instant>>,
     /// 0 = within budget, 1 = known-class lateness reported, 2 = lateness reported
@@ -675,6 +748,8 @@ impl<'a> Core<'a> {
             err_unexamined: Vec::new(),
             excuse_all: false,
             excused: vec![false; plan.len()],
+            edns: false,
+            extra: None,
             last_traffic: vec![None; plan.len()],
             budget_stage: vec![0; plan.len()],
         }
@@ -823,6 +898,21 @@ impl<'a> Core<'a> {
                 }
             }
             *self.current.lock().unwrap() = None;
+            if let Some(x) = self.extra.as_mut() {
+                match x.step() {
+                    Ok((p, done)) => {
+                        any |= p;
+                        if done.is_some() {
+                            self.extra = None;
+                        }
+                    }
+                    Err(pm) => {
+                        self.extra = None;
+                        self.panic("multi-response-request-future", pm);
+                        return;
+                    }
+                }
+            }
             if !any {
                 self.check_expect();
                 self.check_budget();
@@ -926,6 +1016,20 @@ impl<'a> Core<'a> {
         }
     }
 
+    /// The request bytes the subject wrote for an EDNS-form request.
+    fn check_wire_request(&mut self, bytes: &[u8], want_size: u16) {
+        if !self.edns {
+            return;
+        }
+        match check_edns_request(bytes, want_size) {
+            Ok(()) => self.count("edns-request-on-wire.ok"),
+            Err(why) => {
+                let class: String = why.chars().take_while(|c| *c != ':').collect();
+                self.violate(format!("C15|{}|request-on-wire|{class}", self.tname), format!("request written as {}: {why}", hex(bytes)));
+            }
+        }
+    }
+
     /// The subject put a request of caller `i` with `id` on the wire.
     fn learn_id(&mut self, i: usize, id: u16) {
         self.reqs[i].ids.push(id);
@@ -946,7 +1050,7 @@ impl<'a> Core<'a> {
 
     fn submit<S: SendRequest<Rq>>(&mut self, conn: &S, i: usize) {
         let q = self.reqs[i].q;
-        let msg = build_request(i, q);
+        let msg = if self.edns { build_request_edns(i, q) } else { build_request(i, q) };
         match guard(|| conn.send_request(msg)) {
             Ok(r) => {
                 let fut = async move {
@@ -1066,13 +1170,15 @@ struct StreamCfg {
     gap_ms: u64,
     /// by default this caller is never answered
     never_answer: Option<usize>,
+    /// requests carry EDNS data set through the ComposeRequest interface
+    edns: bool,
     /// size of the first wave of submissions; the rest is submitted (by
     /// default) once at most one request is still open at the peer
     wave1: usize,
 }
 impl StreamCfg {
     fn json(&self) -> Value {
-        json!({"plan": self.plan, "idle_timeout_ms": self.idle_ms, "response_timeout_ms": self.rt_ms, "peer_silent_by_default": self.silent, "first_wave": self.wave1, "gap_before_second_wave_ms": self.gap_ms, "never_answered_by_default": self.never_answer})
+        json!({"plan": self.plan, "idle_timeout_ms": self.idle_ms, "response_timeout_ms": self.rt_ms, "peer_silent_by_default": self.silent, "first_wave": self.wave1, "gap_before_second_wave_ms": self.gap_ms, "never_answered_by_default": self.never_answer, "edns_requests": self.edns})
     }
 }
 
@@ -1144,6 +1250,7 @@ fn account_frame(core: &mut Core, entries: &mut [Entry], conn: usize, healthy: b
 
 async fn run_stream(g: &Global, cfg: &StreamCfg, ch: Arc<Mutex<Chooser>>) {
     let mut core = Core::new(g, "stream", cfg.json(), ch.clone(), &cfg.plan);
+    core.edns = cfg.edns;
     let st = Arc::new(Mutex::new(StreamState::default()));
     let mock = MockStream { st: st.clone(), ch: ch.clone(), wf: WFaults { enabled: true, all_cuts: g.all_cuts.load(Ordering::Relaxed) } };
     let mut sc = stream::Config::new();
@@ -1184,6 +1291,7 @@ async fn run_stream(g: &Global, cfg: &StreamCfg, ch: Arc<Mutex<Chooser>>) {
                 std::process::exit(2);
             }
             core.learn_id(idx, id);
+            core.check_wire_request(&f, 1400);
             entries.push(Entry { conn: 0, req: idx, id, q, open: !peer.fatal });
             core.note(format!("peer sees request of caller {idx} with id {id}"));
         }
@@ -1268,6 +1376,11 @@ async fn run_stream(g: &Global, cfg: &StreamCfg, ch: Arc<Mutex<Chooser>>) {
             }
             for &e in &open {
                 menu.push(SAct::Deliver(e, RKind::Qr0));
+                // answers that carry an edns-tcp-keepalive option: idle timeout 0 and 2 s
+                if cfg.plan.len() <= 2 {
+                    menu.push(SAct::Deliver(e, RKind::AnswerKeepalive(0)));
+                    menu.push(SAct::Deliver(e, RKind::AnswerKeepalive(20)));
+                }
                 // the reply grammar: for every open request with up to two
                 // callers, for the oldest open request with three, and only
                 // the three classic shapes in the six-caller slot-recycling case
@@ -1696,10 +1809,16 @@ struct DgramCfg {
     max_par: usize,
     /// the default "time passes" step is half the read timeout
     half_ticks: bool,
+    /// requests carry EDNS data set through the ComposeRequest interface
+    edns: bool,
+    /// dgram::Config::set_udp_payload_size: Some(default 1232) or None
+    udp_size_none: bool,
+    /// receive buffer size (None = default 2000)
+    recv_size: Option<usize>,
 }
 impl DgramCfg {
     fn json(&self) -> Value {
-        json!({"plan": self.plan, "max_retries": self.retries, "peer_silent_by_default": self.silent, "max_parallel": self.max_par, "default_time_step_is_half_read_timeout": self.half_ticks})
+        json!({"plan": self.plan, "max_retries": self.retries, "peer_silent_by_default": self.silent, "max_parallel": self.max_par, "default_time_step_is_half_read_timeout": self.half_ticks, "edns_requests": self.edns, "udp_payload_size_none": self.udp_size_none, "recv_size": self.recv_size})
     }
 }
 
@@ -1738,7 +1857,7 @@ const DG_READ_TIMEOUT: Duration = Duration::from_secs(1);
 
 /// Record every ID a caller has put on the wire and the start of its budget
 /// (first datagram). Each socket carries exactly one datagram.
-fn dg_learn(core: &mut Core, sh: &Arc<Mutex<DgShared>>, learnt: &mut Vec<bool>) {
+fn dg_learn(core: &mut Core, sh: &Arc<Mutex<DgShared>>, learnt: &mut Vec<bool>, want_size: u16) {
     let g = sh.lock().unwrap();
     let mut news = Vec::new();
     for (si, s) in g.socks.iter().enumerate() {
@@ -1752,12 +1871,13 @@ fn dg_learn(core: &mut Core, sh: &Arc<Mutex<DgShared>>, learnt: &mut Vec<bool>) 
                 eprintln!("MACHINERY: dgram: datagram does not belong to the polling caller");
                 std::process::exit(2);
             }
-            news.push((idx, id, s.sent_at.unwrap()));
+            news.push((idx, id, s.sent_at.unwrap(), s.sent[0].clone()));
         }
     }
     drop(g);
-    for (idx, id, at) in news {
+    for (idx, id, at, bytes) in news {
         core.learn_id(idx, id);
+        core.check_wire_request(&bytes, want_size);
         if core.reqs[idx].start.is_none() {
             core.reqs[idx].start = Some(at);
         }
@@ -1773,8 +1893,17 @@ async fn run_dgram(g: &Global, cfg: &DgramCfg, ch: Arc<Mutex<Chooser>>) {
     dc.set_read_timeout(DG_READ_TIMEOUT);
     dc.set_max_retries(cfg.retries);
     dc.set_max_parallel(cfg.max_par);
+    if cfg.udp_size_none {
+        dc.set_udp_payload_size(None);
+    }
+    if let Some(n) = cfg.recv_size {
+        dc.set_recv_size(n);
+    }
+    // the budget is computed from what the config reports after clamping
+    core.budget = Some(dc.read_timeout() * (1 + dc.max_retries() as u32));
+    core.edns = cfg.edns;
+    let want_size = dc.udp_payload_size().unwrap_or(1400);
     let conn = dgram::Connection::with_config(connect, dc);
-    core.budget = Some(DG_READ_TIMEOUT * (1 + cfg.retries as u32));
     let mut tr: Option<Slot<()>> = None;
     let mut learnt: Vec<bool> = Vec::new();
     let mut idle_ticks = 0;
@@ -1784,7 +1913,7 @@ async fn run_dgram(g: &Global, cfg: &DgramCfg, ch: Arc<Mutex<Chooser>>) {
         if core.aborted {
             break;
         }
-        dg_learn(&mut core, &sh, &mut learnt);
+        dg_learn(&mut core, &sh, &mut learnt, want_size);
         for o in sh.lock().unwrap().faulted.clone() {
             core.excused[o] = true;
         }
@@ -1864,7 +1993,9 @@ async fn run_dgram(g: &Global, cfg: &DgramCfg, ch: Arc<Mutex<Chooser>>) {
             let w = &waiting[wi];
             core.note(format!("peer -> caller {} (id {}): {what}", w.req, w.id));
             core.delivered.push(Delivered { bytes: msg.clone(), udp: true });
-            if msg.len() >= 12 && core.pending(w.req) && answers(&msg, &[w.id], w.q).is_ok() {
+            // a datagram longer than the receive buffer arrives cut
+            let cut = cfg.recv_size.map(|n| msg.len() > n).unwrap_or(false);
+            if !cut && msg.len() >= 12 && core.pending(w.req) && answers(&msg, &[w.id], w.q).is_ok() {
                 core.expect.push((w.req, msg.clone()));
             } else {
                 // stray / malformed datagram: failing the request is within the property
@@ -2157,7 +2288,7 @@ async fn run_multi(g: &Global, cfg: &MultiCfg, ch: Arc<Mutex<Chooser>>) {
             break;
         }
         if cfg.dgram_first {
-            dg_learn(&mut core, &dsh, &mut learnt);
+            dg_learn(&mut core, &dsh, &mut learnt, 0);
         }
         if cfg.fine {
             let now = Instant::now();
@@ -2623,6 +2754,9 @@ enum UpMode {
     Error,
     /// never answers: after UP_TIMEOUT the upstream's own timeout fails the call
     Silent,
+    /// answers REFUSED / SERVFAIL (with the question)
+    Refused,
+    ServFail,
 }
 
 #[derive(Clone, Debug)]
@@ -2635,10 +2769,12 @@ struct ComboCfg {
     max_burst: Option<u64>,
     /// by default the next request is submitted only when nothing is open
     sequential: bool,
+    /// defer_refused and defer_servfail
+    defer_rcode: bool,
 }
 impl ComboCfg {
     fn json(&self) -> Value {
-        json!({"plan": self.plan, "upstreams_default": self.ups.iter().map(|u| format!("{u:?}")).collect::<Vec<_>>(), "defer_transport_error": self.defer, "max_burst": self.max_burst, "sequential": self.sequential})
+        json!({"plan": self.plan, "upstreams_default": self.ups.iter().map(|u| format!("{u:?}")).collect::<Vec<_>>(), "defer_transport_error": self.defer, "max_burst": self.max_burst, "sequential": self.sequential, "defer_refused_and_servfail": self.defer_rcode})
     }
 }
 
@@ -2649,6 +2785,8 @@ const UP_TIMEOUT: Duration = Duration::from_millis(2000);
 enum CAct {
     Submit,
     Answer(usize),
+    /// answer with this RCODE (5 REFUSED, 2 SERVFAIL) and the question
+    AnswerRcode(usize, u8),
     Fail(usize),
     Timeout(usize),
     Tick,
@@ -2704,6 +2842,8 @@ async fn run_combo(g: &Global, cfg: &ComboCfg, ch: Arc<Mutex<Chooser>>) {
     if cfg.lb {
         let mut c = load_balancer::Config::default();
         c.set_defer_transport_error(cfg.defer);
+        c.set_defer_refused(cfg.defer_rcode);
+        c.set_defer_servfail(cfg.defer_rcode);
         let (cn, t) = load_balancer::Connection::<Rq>::with_config(c);
         tr = Some(Slot::new(t.run()));
         for idx in 0..cfg.ups.len() {
@@ -2720,6 +2860,8 @@ async fn run_combo(g: &Global, cfg: &ComboCfg, ch: Arc<Mutex<Chooser>>) {
     } else {
         let mut c = redundant::Config::default();
         c.set_defer_transport_error(cfg.defer);
+        c.set_defer_refused(cfg.defer_rcode);
+        c.set_defer_servfail(cfg.defer_rcode);
         let (cn, t) = redundant::Connection::<Rq>::with_config(c);
         tr = Some(Slot::new(t.run()));
         for idx in 0..cfg.ups.len() {
@@ -2733,6 +2875,9 @@ async fn run_combo(g: &Global, cfg: &ComboCfg, ch: Arc<Mutex<Chooser>>) {
     let mut learnt = 0usize;
     let mut ticks = 0;
     let n_up = cfg.ups.len();
+    // REFUSED / SERVFAIL answers given while such answers are deferred: (caller, message)
+    let mut deferred_replies: Vec<(usize, Vec<u8>)> = Vec::new();
+    let mut deferred_checked: Vec<bool> = vec![false; cfg.plan.len()];
 
     for _step in 0..64 {
         core.quiesce(&mut tr);
@@ -2766,13 +2911,38 @@ async fn run_combo(g: &Global, cfg: &ComboCfg, ch: Arc<Mutex<Chooser>>) {
             drop(gsh);
             if failed == 0 {
                 core.violate(format!("C15|{tname}|spurious-error|{e}"), format!("request {i} completed with Err({e}) although no upstream call made for it failed"));
-            } else if cfg.defer && cfg.max_burst.is_none() && (answered > 0 || tried.len() < n_up || failed < tried.len()) {
+            } else if cfg.defer && !cfg.defer_rcode && cfg.max_burst.is_none() && (answered > 0 || tried.len() < n_up || failed < tried.len()) {
                 core.violate(
                     format!("C15|{tname}|deferred-error|returned-before-every-upstream-failed"),
                     format!("request {i} completed with Err({e}) with defer_transport_error set: {} of {n_up} upstreams tried, {failed} calls failed, {answered} answered", tried.len()),
                 );
             } else {
                 core.count("err.has-upstream-cause");
+            }
+        }
+        // a deferred REFUSED / SERVFAIL may only be the result when every
+        // upstream has been tried and none of the caller's calls is still open
+        for i in 0..core.reqs.len() {
+            if deferred_checked[i] {
+                continue;
+            }
+            if let Some(Res::Ok(b)) = core.reqs[i].result.clone() {
+                deferred_checked[i] = true;
+                if deferred_replies.iter().any(|(c, m)| *c == i && *m == b) {
+                    let gsh = sh.lock().unwrap();
+                    let mine: Vec<&UpCall> = gsh.calls.iter().filter(|c| c.caller == i).collect();
+                    let tried: std::collections::BTreeSet<usize> = mine.iter().map(|c| c.upstream).collect();
+                    let unfinished = mine.iter().filter(|c| !c.answered && !c.failed).count();
+                    drop(gsh);
+                    if tried.len() < n_up || unfinished > 0 {
+                        core.violate(
+                            format!("C15|{tname}|deferred-reply|returned-before-every-upstream-answered"),
+                            format!("request {i} got the deferred REFUSED/SERVFAIL reply while {} of {n_up} upstreams had been tried and {unfinished} call(s) were unfinished", tried.len()),
+                        );
+                    } else {
+                        core.count("deferred-reply.returned-after-all-upstreams");
+                    }
+                }
             }
         }
         let (open, ex): (Vec<usize>, String) = {
@@ -2799,6 +2969,8 @@ async fn run_combo(g: &Global, cfg: &ComboCfg, ch: Arc<Mutex<Chooser>>) {
                 match cfg.ups[u] {
                     UpMode::Answer => d = Some(CAct::Answer(c)),
                     UpMode::Error => d = Some(CAct::Fail(c)),
+                    UpMode::Refused => d = Some(CAct::AnswerRcode(c, 5)),
+                    UpMode::ServFail => d = Some(CAct::AnswerRcode(c, 2)),
                     UpMode::Silent if age >= UP_TIMEOUT => d = Some(CAct::Timeout(c)),
                     UpMode::Silent => {}
                 }
@@ -2824,6 +2996,13 @@ async fn run_combo(g: &Global, cfg: &ComboCfg, ch: Arc<Mutex<Chooser>>) {
             }
             if !(default_call == Some(c) && matches!(menu[0], CAct::Fail(_))) {
                 menu.push(CAct::Fail(c));
+            }
+            if cfg.ups.iter().any(|u| matches!(u, UpMode::Refused | UpMode::ServFail)) {
+                for rc in [5u8, 2] {
+                    if !(default_call == Some(c) && matches!(menu[0], CAct::AnswerRcode(_, r) if r == rc)) {
+                        menu.push(CAct::AnswerRcode(c, rc));
+                    }
+                }
             }
         }
         if any_pending && !default_is_tick {
@@ -2861,6 +3040,29 @@ async fn run_combo(g: &Global, cfg: &ComboCfg, ch: Arc<Mutex<Chooser>>) {
                 core.delivered.push(Delivered { bytes: msg.clone(), udp: false });
                 if core.pending(caller) {
                     core.expect.push((caller, msg.clone()));
+                }
+                up_resolve(&sh, c, Ok(msg));
+            }
+            CAct::AnswerRcode(c, rc) => {
+                let (u, caller, id, q) = {
+                    let gsh = sh.lock().unwrap();
+                    (gsh.calls[c].upstream, gsh.calls[c].caller, gsh.calls[c].id, gsh.calls[c].q)
+                };
+                let s = core.next_serial();
+                // unique per call: the serial goes into an (ignored) additional A record
+                let mut msg = mk_shape(id, q, Shape { rcode: rc, qsel: QSel::Same, tc: false }, caller, s);
+                msg[11] = 1;
+                msg.extend_from_slice(&[0xC0, 0x0C, 0, 1, 0, 1, 0, 0, 0, 60, 0, 4, 10, caller as u8]);
+                msg.extend_from_slice(&s.to_be_bytes());
+                core.note(format!("upstream {u} answers caller {caller} with rcode {rc}"));
+                core.count("action.upstream.answer-rcode");
+                core.delivered.push(Delivered { bytes: msg.clone(), udp: false });
+                if core.pending(caller) {
+                    if cfg.defer_rcode {
+                        deferred_replies.push((caller, msg.clone()));
+                    } else {
+                        core.expect.push((caller, msg.clone()));
+                    }
                 }
                 up_resolve(&sh, c, Ok(msg));
             }
@@ -2914,6 +3116,531 @@ async fn run_combo(g: &Global, cfg: &ComboCfg, ch: Arc<Mutex<Chooser>>) {
 }
 
 // ---------------------------------------------------------------------------
+// multi-response (AXFR / IXFR) requests on the stream transport
+// ---------------------------------------------------------------------------
+
+const ZONE: &[u8] = b"\x07example\x00";
+
+#[derive(Clone, Copy, Debug, PartialEq, Eq)]
+enum XRec {
+    Soa(u32),
+    A,
+}
+
+#[derive(Clone, Debug)]
+struct XfrCfg {
+    /// 0 AXFR (SOA 7, A, SOA 7); 1 IXFR answered with the single current SOA;
+    /// 2 IXFR answered AXFR style; 3 IXFR incremental (SOA 7, SOA 5, A, SOA 7, A, SOA 7)
+    shape: u8,
+    /// an ordinary single-response request shares the connection
+    with_single: bool,
+}
+impl XfrCfg {
+    fn json(&self) -> Value {
+        let name = ["AXFR", "IXFR-single-SOA", "IXFR-as-AXFR", "IXFR-incremental"][self.shape as usize];
+        json!({"transfer": name, "with_ordinary_request": self.with_single})
+    }
+    fn qtype(&self) -> u16 {
+        if self.shape == 0 {
+            252
+        } else {
+            251
+        }
+    }
+    fn script(&self) -> Vec<XRec> {
+        match self.shape {
+            0 | 2 => vec![XRec::Soa(7), XRec::A, XRec::Soa(7)],
+            1 => vec![XRec::Soa(7)],
+            _ => vec![XRec::Soa(7), XRec::Soa(5), XRec::A, XRec::Soa(7), XRec::A, XRec::Soa(7)],
+        }
+    }
+}
+
+const XFR_CALLER: usize = 7;
+
+fn soa_rdata(serial: u32) -> Vec<u8> {
+    let mut v = b"\x02ns\x07example\x00\x01h\x07example\x00".to_vec();
+    v.extend_from_slice(&serial.to_be_bytes());
+    for x in [3600u32, 600, 86400, 60] {
+        v.extend_from_slice(&x.to_be_bytes());
+    }
+    v
+}
+
+fn xfr_request_bytes(cfg: &XfrCfg) -> Vec<u8> {
+    let ns: u16 = if cfg.shape == 0 { 0 } else { 1 };
+    let mut v = vec![0, 0, 0x00, (XFR_CALLER as u8) << 4, 0, 1, 0, 0];
+    v.extend_from_slice(&ns.to_be_bytes());
+    v.extend_from_slice(&[0, 0]);
+    v.extend_from_slice(ZONE);
+    v.extend_from_slice(&cfg.qtype().to_be_bytes());
+    v.extend_from_slice(&[0, 1]);
+    if ns == 1 {
+        // IXFR: the client's current SOA (serial 5) in the authority section
+        v.extend_from_slice(ZONE);
+        v.extend_from_slice(&[0, 6, 0, 1, 0, 0, 0, 60]);
+        let rd = soa_rdata(5);
+        v.extend_from_slice(&(rd.len() as u16).to_be_bytes());
+        v.extend_from_slice(&rd);
+    }
+    v
+}
+
+/// One response message of a transfer. `ttl` makes every message unique.
+fn mk_xfr_msg(id: u16, question: Option<(&[u8], u16)>, rcode: u8, recs: &[XRec], ttl: u32) -> Vec<u8> {
+    let mut v = Vec::new();
+    v.extend_from_slice(&id.to_be_bytes());
+    v.extend_from_slice(&(0x8400u16 | rcode as u16).to_be_bytes());
+    v.extend_from_slice(&(question.is_some() as u16).to_be_bytes());
+    v.extend_from_slice(&(recs.len() as u16).to_be_bytes());
+    v.extend_from_slice(&[0, 0, 0, 0]);
+    if let Some((name, qt)) = question {
+        v.extend_from_slice(name);
+        v.extend_from_slice(&qt.to_be_bytes());
+        v.extend_from_slice(&[0, 1]);
+    }
+    for r in recs {
+        match r {
+            XRec::Soa(serial) => {
+                v.extend_from_slice(ZONE);
+                v.extend_from_slice(&[0, 6, 0, 1]);
+                v.extend_from_slice(&ttl.to_be_bytes());
+                let rd = soa_rdata(*serial);
+                v.extend_from_slice(&(rd.len() as u16).to_be_bytes());
+                v.extend_from_slice(&rd);
+            }
+            XRec::A => {
+                v.extend_from_slice(b"\x01a\x07example\x00");
+                v.extend_from_slice(&[0, 1, 0, 1]);
+                v.extend_from_slice(&ttl.to_be_bytes());
+                v.extend_from_slice(&[0, 4, 10, 9, 9, 9]);
+            }
+        }
+    }
+    v
+}
+
+#[derive(Clone, Debug, PartialEq, Eq)]
+enum XRes {
+    Msg(Vec<u8>),
+    End,
+    Err(String),
+}
+
+#[derive(Clone, Debug)]
+enum XAct {
+    SubmitXfr,
+    SubmitSingle,
+    /// next k records of the transfer, with (true) or without the question
+    Segment(usize, bool),
+    AnswerSingle,
+    /// faults aimed at the transfer
+    XWrongQuestion,
+    XRefused,
+    XHdrErr,
+    XNonSoa,
+    XBadSoa,
+    XUnknownId,
+    /// the ordinary request's answer under the transfer's ID / a transfer segment under the ordinary request's ID
+    SingleUnderXfrId,
+    SegmentUnderSingleId,
+    /// one more message under the transfer's ID after it has ended
+    XStale,
+    Eof,
+    Short,
+    CancelXfr,
+    CancelSingle,
+    Finish,
+}
+
+/// A message under the transfer's ID reaches the client.
+fn xfr_send(core: &mut Core, entries: &mut [Entry], xfr_delivered: &mut Vec<Vec<u8>>, st: &Arc<Mutex<StreamState>>, msg: Vec<u8>, what: &str) {
+    core.note(format!("peer sends under the transfer's id: {what}"));
+    core.delivered.push(Delivered { bytes: msg.clone(), udp: false });
+    xfr_delivered.push(msg.clone());
+    for i in 0..core.reqs.len() {
+        if core.pending(i) {
+            core.last_traffic[i] = Some(Instant::now());
+        }
+    }
+    // the transfer's slot may meanwhile belong to the ordinary request
+    if msg.len() >= 2 {
+        let id = u16::from_be_bytes([msg[0], msg[1]]);
+        if let Some(e) = entries.iter_mut().find(|e| e.open && e.id == id) {
+            e.open = false;
+            core.excused[e.req] = true;
+        }
+    }
+    feed(st, framed(&msg));
+}
+
+async fn run_xfr(g: &Global, cfg: &XfrCfg, ch: Arc<Mutex<Chooser>>) {
+    use domain::net::client::request::SendRequestMulti;
+    let plan: Vec<usize> = if cfg.with_single { vec![0] } else { vec![] };
+    let mut core = Core::new(g, "stream_xfr", cfg.json(), ch.clone(), &plan);
+    let st = Arc::new(Mutex::new(StreamState::default()));
+    let mock = MockStream { st: st.clone(), ch: ch.clone(), wf: WFaults { enabled: false, all_cuts: false } };
+    let (conn, transport) = stream::Connection::<Rq, RqM>::with_config(mock, stream::Config::new());
+    let mut conn = Some(conn);
+    let mut tr = Some(Slot::new(transport.run()));
+    let mut entries: Vec<Entry> = Vec::new(); // the ordinary request only
+    let seen: Arc<Mutex<Vec<XRes>>> = Arc::new(Mutex::new(Vec::new()));
+    let script = cfg.script();
+    let qt = cfg.qtype();
+    let mut xfr_submitted = false;
+    let mut xfr_cancelled = false;
+    let mut xfr_id: Option<u16> = None;
+    let mut sent_recs = 0usize; // records of the script delivered so far
+    let mut clean = true; // no fault aimed at the transfer so far
+    let mut xfr_delivered: Vec<Vec<u8>> = Vec::new(); // every complete message sent under the transfer's ID
+    let mut expect_seen: Vec<XRes> = Vec::new(); // what the caller must have seen (clean transfers)
+    let mut checked = 0usize; // observed results already checked against xfr_delivered
+    let mut dptr = 0usize;
+    let mut fatal = false;
+    let mut ttl = 100u32;
+
+    for _step in 0..64 {
+        core.quiesce(&mut tr);
+        if core.aborted {
+            break;
+        }
+        for f in take_frames(&st) {
+            let m = match wire::read_message(&f) {
+                Ok(m) => m,
+                Err(e) => {
+                    eprintln!("MACHINERY: xfr: request on the wire does not parse: {e}");
+                    std::process::exit(2);
+                }
+            };
+            let idx = ((m.flags >> 4) & 7) as usize;
+            if idx == XFR_CALLER {
+                let mut p = Vec::new();
+                let want = wire::read_name(ZONE, 0, &mut p).unwrap().0;
+                if m.questions.len() != 1 || m.questions[0].qname != want || m.questions[0].qtype != qt {
+                    core.violate("C15|stream_xfr|request-on-wire|question-changed".into(), format!("the transfer request went out as {}", hex(&f)));
+                }
+                xfr_id = Some(m.id);
+                core.note(format!("peer sees the transfer request with id {}", m.id));
+            } else {
+                let (i2, id, q) = parse_request(&f, "xfr-single");
+                core.learn_id(i2, id);
+                entries.push(Entry { conn: 0, req: i2, id, q, open: !fatal });
+                core.note(format!("peer sees the ordinary request with id {id}"));
+            }
+        }
+        let tr_alive = tr.as_ref().map(|t| t.alive()).unwrap_or(false);
+        let healthy = !fatal && tr_alive;
+        if !healthy {
+            core.excuse_all = true;
+            for e in entries.iter_mut() {
+                e.open = false;
+            }
+        }
+        core.check_spurious();
+        // ---- oracle on what the transfer's caller has been handed
+        let obs: Vec<XRes> = seen.lock().unwrap().clone();
+        for r in &obs[checked..] {
+            match r {
+                XRes::Msg(b) => {
+                    // handed messages are the delivered ones, in order, none twice
+                    match xfr_delivered[dptr..].iter().position(|d| d == b) {
+                        Some(k) => dptr += k + 1,
+                        None => core.violate(
+                            "C15|stream_xfr|handed-message|not-delivered-under-its-id-or-out-of-order".into(),
+                            format!("the transfer's caller was handed {} which the peer did not send under id {xfr_id:?} after the previously handed message", hex(b)),
+                        ),
+                    }
+                    if checked == 0 {
+                        let m = wire::read_message(b).ok();
+                        let mut p = Vec::new();
+                        let want = wire::read_name(ZONE, 0, &mut p).unwrap().0;
+                        let okq = m.map(|m| (m.questions.len() == 1 && m.questions[0].qname == want && m.questions[0].qtype == qt) || (m.flags & 0xF != 0 && m.counts == [0, 0, 0, 0])).unwrap_or(false);
+                        if !okq {
+                            core.violate("C15|stream_xfr|handed-message|first-message-question-mismatch".into(), format!("first message handed to the transfer's caller: {}", hex(b)));
+                        }
+                    }
+                }
+                XRes::End => core.count("xfr.end-of-stream"),
+                XRes::Err(e) => {
+                    let k = format!("xfr.err.{e}");
+                    core.count(&k);
+                    if clean && healthy {
+                        core.violate(format!("C15|stream_xfr|spurious-error|{e}"), format!("the transfer's caller got Err({e}) although the peer sent a well-formed transfer on a healthy connection"));
+                    }
+                }
+            }
+            checked += 1;
+        }
+        if clean && healthy && !xfr_cancelled && obs != expect_seen {
+            core.violate(
+                "C15|stream_xfr|well-formed-transfer|caller-view-differs".into(),
+                format!("peer sent {} well-formed message(s) (transfer {}complete); caller saw {:?}", expect_seen.iter().filter(|x| matches!(x, XRes::Msg(_))).count(), if expect_seen.last() == Some(&XRes::End) { "" } else { "in" }, obs.iter().map(|x| match x { XRes::Msg(b) => format!("msg[{}]", b.len()), o => format!("{o:?}") }).collect::<Vec<_>>()),
+            );
+            clean = false; // report once
+        }
+        let xfr_done = matches!(obs.last(), Some(XRes::End) | Some(XRes::Err(_)));
+        let ex = format!("x{}{}{}|s{}|c{}|o{}|e{:?}", xfr_submitted as u8, xfr_id.is_some() as u8, xfr_done as u8, sent_recs, clean as u8, obs.len(), entries.iter().map(|e| e.open).collect::<Vec<_>>());
+        core.state(&ex);
+
+        // ---- menu
+        let single_unsub = cfg.with_single && !core.reqs[0].submitted;
+        let single_open: Option<usize> = (0..entries.len()).find(|i| entries[*i].open);
+        let remaining = script.len() - sent_recs;
+        let xfr_active = xfr_id.is_some() && healthy;
+        let mut menu: Vec<XAct> = Vec::new();
+        let default = if !xfr_submitted {
+            XAct::SubmitXfr
+        } else if single_unsub {
+            XAct::SubmitSingle
+        } else if xfr_active && remaining > 0 && !xfr_done {
+            XAct::Segment(remaining, true)
+        } else if healthy && single_open.is_some() {
+            XAct::AnswerSingle
+        } else {
+            XAct::Finish
+        };
+        menu.push(default.clone());
+        if healthy {
+            if xfr_active && remaining > 0 {
+                for k in 1..=remaining {
+                    for q in [true, false] {
+                        if !(k == remaining && q && !xfr_done) {
+                            menu.push(XAct::Segment(k, q));
+                        }
+                    }
+                }
+            }
+            if single_open.is_some() && !matches!(default, XAct::AnswerSingle) {
+                menu.push(XAct::AnswerSingle);
+            }
+            if xfr_active {
+                if remaining > 0 {
+                    menu.push(XAct::XWrongQuestion);
+                    menu.push(XAct::XRefused);
+                    menu.push(XAct::XHdrErr);
+                    menu.push(XAct::XBadSoa);
+                    if sent_recs == 0 {
+                        menu.push(XAct::XNonSoa);
+                    }
+                    if single_open.is_some() {
+                        menu.push(XAct::SingleUnderXfrId);
+                        menu.push(XAct::SegmentUnderSingleId);
+                    }
+                } else {
+                    menu.push(XAct::XStale);
+                }
+                menu.push(XAct::XUnknownId);
+            }
+            menu.push(XAct::Eof);
+            menu.push(XAct::Short);
+        }
+        if xfr_submitted && !xfr_cancelled && !xfr_done {
+            menu.push(XAct::CancelXfr);
+        }
+        if cfg.with_single && core.pending(0) {
+            menu.push(XAct::CancelSingle);
+        }
+        let k = core.choose(menu.len(), "xfr-step");
+        let act = menu[k].clone();
+        core.transitions += 1;
+        ttl += 1;
+        let xid = xfr_id.unwrap_or(0);
+        match act {
+            XAct::SubmitXfr => {
+                xfr_submitted = true;
+                core.count("action.submit-transfer");
+                core.note(format!("submit the {} request", if qt == 252 { "AXFR" } else { "IXFR" }));
+                let msg = Message::from_octets(xfr_request_bytes(cfg)).expect("xfr request");
+                let rq = match RequestMessageMulti::new(msg) {
+                    Ok(r) => r,
+                    Err(_) => {
+                        eprintln!("MACHINERY: RequestMessageMulti::new refused the transfer request");
+                        std::process::exit(2);
+                    }
+                };
+                if let Some(c) = conn.as_ref() {
+                    match guard(|| SendRequestMulti::send_request(c, rq)) {
+                        Ok(r) => {
+                            let seen2 = seen.clone();
+                            core.extra = Some(Slot::new(async move {
+                                let mut r = r;
+                                loop {
+                                    let x = r.get_response().await;
+                                    let (item, stop) = match x {
+                                        Ok(Some(m)) => (XRes::Msg(m.as_slice().to_vec()), false),
+                                        Ok(None) => (XRes::End, true),
+                                        Err(e) => (XRes::Err(err_class(&e)), true),
+                                    };
+                                    seen2.lock().unwrap().push(item);
+                                    if stop {
+                                        break;
+                                    }
+                                }
+                            }));
+                        }
+                        Err(pm) => core.panic("send_request-multi", pm),
+                    }
+                }
+            }
+            XAct::SubmitSingle => {
+                core.count("action.submit");
+                if let Some(c) = conn.as_ref() {
+                    core.submit(c, 0);
+                }
+            }
+            XAct::Segment(k, q) => {
+                let recs = &script[sent_recs..sent_recs + k];
+                let first = sent_recs == 0;
+                let msg = mk_xfr_msg(xid, if q { Some((ZONE, qt)) } else { None }, 0, recs, ttl);
+                core.count(&format!("action.segment.{}records.q{}", k, q as u8));
+                sent_recs += k;
+                // RFC 5936 2.2: the first message must carry the question, later ones may omit it (AXFR).
+                // The library accepts an omitted question in later messages for AXFR only.
+                let well_formed = q || (!first && cfg.shape == 0);
+                if !well_formed || (cfg.shape != 0 && !q) {
+                    clean = false;
+                }
+                // IXFR: a first message holding nothing but the first SOA is
+                // indistinguishable from the complete "you are up to date"
+                // answer (RFC 1995); either reading is accepted
+                if cfg.shape >= 2 && first && k == 1 {
+                    clean = false;
+                    core.count("xfr.ixfr-first-message-single-soa(ambiguous)");
+                }
+                if clean {
+                    expect_seen.push(XRes::Msg(msg.clone()));
+                    if sent_recs == script.len() {
+                        expect_seen.push(XRes::End);
+                    }
+                }
+                xfr_send(&mut core, &mut entries, &mut xfr_delivered, &st, msg, &format!("{k} record(s) {:?}, question {}", recs, if q { "present" } else { "omitted" }));
+            }
+            XAct::AnswerSingle => {
+                let en = entries[single_open.unwrap()].clone();
+                let sn = core.next_serial();
+                let msg = mk_resp(en.id, en.q, RKind::Answer, en.req, sn);
+                core.note(format!("peer answers the ordinary request id {}", en.id));
+                core.count("action.deliver.Answer");
+                feed(&st, framed(&msg));
+                account_frame(&mut core, &mut entries, 0, healthy, &msg, false);
+            }
+            XAct::XWrongQuestion => {
+                clean = false;
+                core.count("action.xfr-fault.wrong-question");
+                let msg = mk_xfr_msg(xid, Some((b"\x05other\x00", qt)), 0, &script[sent_recs..sent_recs + 1], ttl);
+                xfr_send(&mut core, &mut entries, &mut xfr_delivered, &st, msg, "a message with another question");
+            }
+            XAct::XRefused => {
+                clean = false;
+                core.count("action.xfr-fault.refused");
+                let msg = mk_xfr_msg(xid, Some((ZONE, qt)), 5, &[], ttl);
+                xfr_send(&mut core, &mut entries, &mut xfr_delivered, &st, msg, "REFUSED with the question");
+            }
+            XAct::XHdrErr => {
+                clean = false;
+                core.count("action.xfr-fault.header-only-error");
+                let msg = mk_xfr_msg(xid, None, 2, &[], ttl);
+                xfr_send(&mut core, &mut entries, &mut xfr_delivered, &st, msg, "a header-only SERVFAIL");
+            }
+            XAct::XNonSoa => {
+                clean = false;
+                core.count("action.xfr-fault.non-soa-first");
+                let msg = mk_xfr_msg(xid, Some((ZONE, qt)), 0, &[XRec::A], ttl);
+                xfr_send(&mut core, &mut entries, &mut xfr_delivered, &st, msg, "a first message that does not start with a SOA");
+            }
+            XAct::XBadSoa => {
+                clean = false;
+                core.count("action.xfr-fault.bad-soa");
+                let msg = mk_xfr_msg(xid, Some((ZONE, qt)), 0, &[XRec::Soa(99)], ttl);
+                xfr_send(&mut core, &mut entries, &mut xfr_delivered, &st, msg, "a SOA with an unrelated serial");
+            }
+            XAct::XUnknownId => {
+                core.count("action.xfr-fault.unknown-id");
+                let msg = mk_xfr_msg(9, Some((ZONE, qt)), 0, &[XRec::Soa(7)], ttl);
+                core.note("peer sends a transfer message under an id nobody uses".into());
+                core.delivered.push(Delivered { bytes: msg.clone(), udp: false });
+                core.excuse_all = true;
+                feed(&st, framed(&msg));
+            }
+            XAct::SingleUnderXfrId => {
+                clean = false;
+                core.count("action.xfr-fault.single-answer-under-transfer-id");
+                let en = entries[single_open.unwrap()].clone();
+                let sn = core.next_serial();
+                let msg = mk_resp(xid, en.q, RKind::Answer, en.req, sn);
+                xfr_send(&mut core, &mut entries, &mut xfr_delivered, &st, msg, "the ordinary request's answer");
+            }
+            XAct::SegmentUnderSingleId => {
+                core.count("action.xfr-fault.segment-under-single-id");
+                let en = entries[single_open.unwrap()].clone();
+                let msg = mk_xfr_msg(en.id, Some((ZONE, qt)), 0, &script[sent_recs..sent_recs + 1], ttl);
+                core.note("peer sends a transfer message under the ordinary request's id".into());
+                feed(&st, framed(&msg));
+                account_frame(&mut core, &mut entries, 0, healthy, &msg, false);
+            }
+            XAct::XStale => {
+                core.count("action.xfr-fault.message-after-end");
+                let msg = mk_xfr_msg(xid, Some((ZONE, qt)), 0, &[XRec::A], ttl);
+                core.excuse_all = true;
+                xfr_send(&mut core, &mut entries, &mut xfr_delivered, &st, msg, "one more message after the transfer has ended");
+            }
+            XAct::Eof | XAct::Short => {
+                if matches!(act, XAct::Short) {
+                    core.note("peer sends an 11-octet frame".into());
+                    core.count("action.deliver.Short");
+                    feed(&st, framed(&[0xEE; 11]));
+                } else {
+                    core.note("peer closes (EOF)".into());
+                    core.count("action.eof");
+                    feed_eof(&st, false);
+                }
+                fatal = true;
+                for e in entries.iter_mut() {
+                    e.open = false;
+                }
+            }
+            XAct::CancelXfr => {
+                xfr_cancelled = true;
+                core.note("cancel (drop) the transfer request".into());
+                core.count("action.cancel");
+                if let Some(mut x) = core.extra.take() {
+                    if let Err(pm) = x.cancel() {
+                        core.panic("multi-response-request-drop", pm);
+                    }
+                }
+            }
+            XAct::CancelSingle => core.cancel(0),
+            XAct::Finish => {
+                let c = conn.take();
+                let _ = guard(move || drop(c));
+                core.excuse_all = true;
+                core.quiesce(&mut tr);
+                let done = matches!(seen.lock().unwrap().last(), Some(XRes::End) | Some(XRes::Err(_)));
+                if (cfg.with_single && core.pending(0)) || (xfr_submitted && !xfr_cancelled && !done) {
+                    core.note("peer closes (EOF) to end the run".into());
+                    feed_eof(&st, false);
+                    core.quiesce(&mut tr);
+                }
+                break;
+            }
+        }
+    }
+    core.quiesce(&mut tr);
+    core.err_unexamined.clear();
+    let obs = seen.lock().unwrap().clone();
+    if xfr_submitted && !xfr_cancelled && !core.aborted && !matches!(obs.last(), Some(XRes::End) | Some(XRes::Err(_))) {
+        core.violate("C15|stream_xfr|completion|transfer-never-ends".into(), format!("the transfer's caller is still waiting after the peer closed; it saw {} item(s)", obs.len()));
+    }
+    let nmsg = obs.iter().filter(|x| matches!(x, XRes::Msg(_))).count();
+    core.counters.insert(format!("xfr.caller-saw-{nmsg}-messages"), 1);
+    core.finish();
+    let x = core.extra.take();
+    let _ = guard(move || drop(x));
+    let t = tr.take();
+    let _ = guard(move || drop(t));
+}
+
+// ---------------------------------------------------------------------------
 // driver
 // ---------------------------------------------------------------------------
 
@@ -2923,6 +3650,7 @@ enum Case {
     Dgram(DgramCfg),
     Multi(MultiCfg),
     Combo(ComboCfg),
+    Xfr(XfrCfg),
 }
 
 impl Case {
@@ -2932,6 +3660,7 @@ impl Case {
             Case::Dgram(c) => c.plan.len(),
             Case::Multi(c) => c.plan.len(),
             Case::Combo(c) => c.plan.len(),
+            Case::Xfr(c) => 1 + c.with_single as usize,
         }
     }
     fn tname(&self) -> &'static str {
@@ -2952,6 +3681,7 @@ impl Case {
                     "redundant"
                 }
             }
+            Case::Xfr(_) => "stream_xfr",
         }
     }
     fn cfg_json(&self) -> Value {
@@ -2960,6 +3690,7 @@ impl Case {
             Case::Dgram(c) => c.json(),
             Case::Multi(c) => c.json(),
             Case::Combo(c) => c.json(),
+            Case::Xfr(c) => c.json(),
         }
     }
 }
@@ -2969,7 +3700,7 @@ fn all_cases() -> Vec<Case> {
     for c in stream_cfgs() {
         cases.push(Case::Stream(c));
     }
-    for c in dgram_cfgs().into_iter().chain(dgram_half_cfgs()) {
+    for c in dgram_cfgs().into_iter().chain(dgram_half_cfgs()).chain(dgram_config_cfgs()) {
         cases.push(Case::Dgram(c));
     }
     for c in multi_cfgs() {
@@ -2977,6 +3708,11 @@ fn all_cases() -> Vec<Case> {
     }
     for c in combo_cfgs() {
         cases.push(Case::Combo(c));
+    }
+    for shape in 0..4u8 {
+        for with_single in [false, true] {
+            cases.push(Case::Xfr(XfrCfg { shape, with_single }));
+        }
     }
     cases
 }
@@ -2997,6 +3733,7 @@ fn run_case(g: &Global, case: &Case, ch: &mut Chooser) {
             Case::Dgram(c) => run_dgram(g, c, sh2).await,
             Case::Multi(c) => run_multi(g, c, sh2).await,
             Case::Combo(c) => run_combo(g, c, sh2).await,
+            Case::Xfr(c) => run_xfr(g, c, sh2).await,
         }
     });
     drop(rt);
@@ -3007,7 +3744,7 @@ fn run_case(g: &Global, case: &Case, ch: &mut Chooser) {
 
 fn stream_cfgs() -> Vec<StreamCfg> {
     let mut v = Vec::new();
-    let base = |plan: Vec<usize>, idle_ms: u64| StreamCfg { wave1: plan.len(), plan, idle_ms, rt_ms: ST_RT_MS, silent: false, gap_ms: 0, never_answer: None };
+    let base = |plan: Vec<usize>, idle_ms: u64| StreamCfg { wave1: plan.len(), plan, idle_ms, rt_ms: ST_RT_MS, silent: false, gap_ms: 0, never_answer: None, edns: false };
     for plan in [vec![0], vec![0, 0], vec![0, 1], vec![0, 0, 1]] {
         for idle_ms in [ST_IDLE_MS, 0] {
             v.push(base(plan.clone(), idle_ms));
@@ -3019,6 +3756,9 @@ fn stream_cfgs() -> Vec<StreamCfg> {
     for plan in [vec![0], vec![0, 0], vec![0, 0, 1]] {
         v.push(StreamCfg { silent: true, ..base(plan, ST_IDLE_MS) });
     }
+    // requests with EDNS data (DO, NSID option, payload size, extra additional record)
+    v.push(StreamCfg { edns: true, ..base(vec![0, 0], ST_IDLE_MS) });
+    v.push(StreamCfg { edns: true, ..base(vec![0, 1], 0) });
     // a configured (non-default) response timeout
     for plan in [vec![0], vec![0, 0]] {
         v.push(StreamCfg { silent: true, rt_ms: 1000, ..base(plan, ST_IDLE_MS) });
@@ -3047,12 +3787,27 @@ fn dgram_cfgs() -> Vec<DgramCfg> {
                     _ => &[2], // three callers, two permits
                 };
                 for &max_par in pars {
-                    v.push(DgramCfg { plan: plan.clone(), retries, silent, max_par, half_ticks: false });
+                    v.push(DgramCfg { plan: plan.clone(), retries, silent, max_par, half_ticks: false, edns: false, udp_size_none: false, recv_size: None });
                 }
             }
         }
     }
     v
+}
+
+/// Configuration paths of the datagram transport: EDNS requests with and
+/// without the transport's own payload size, a receive buffer shorter than
+/// the answers, max_parallel below its minimum.
+fn dgram_config_cfgs() -> Vec<DgramCfg> {
+    let base = DgramCfg { plan: vec![0], retries: 2, silent: false, max_par: 100, half_ticks: false, edns: false, udp_size_none: false, recv_size: None };
+    vec![
+        DgramCfg { edns: true, ..base.clone() },
+        DgramCfg { edns: true, udp_size_none: true, ..base.clone() },
+        DgramCfg { udp_size_none: true, ..base.clone() },
+        // every answer arrives cut and is ignored: the default is that time passes
+        DgramCfg { recv_size: Some(20), retries: 0, silent: true, ..base.clone() },
+        DgramCfg { plan: vec![0, 0], max_par: 0, retries: 0, ..base.clone() },
+    ]
 }
 
 /// Silent peer, time passing in half read-timeout steps: stray datagrams can
@@ -3061,7 +3816,7 @@ fn dgram_half_cfgs() -> Vec<DgramCfg> {
     let mut v = Vec::new();
     for plan in [vec![0], vec![0, 0]] {
         for retries in [0u8, 2] {
-            v.push(DgramCfg { plan: plan.clone(), retries, silent: true, max_par: 100, half_ticks: true });
+            v.push(DgramCfg { plan: plan.clone(), retries, silent: true, max_par: 100, half_ticks: true, edns: false, udp_size_none: false, recv_size: None });
         }
     }
     v
@@ -3075,16 +3830,24 @@ fn combo_cfgs() -> Vec<ComboCfg> {
             for a in modes {
                 for b in modes {
                     for plan in [vec![0], vec![0, 0]] {
-                        v.push(ComboCfg { lb, plan, ups: vec![a, b], defer, max_burst: None, sequential: false });
+                        v.push(ComboCfg { lb, plan, ups: vec![a, b], defer, max_burst: None, sequential: false, defer_rcode: false });
                     }
                 }
             }
             // three upstreams (the probe index is a real choice), requests one after the other
-            v.push(ComboCfg { lb, plan: vec![0, 1], ups: vec![UpMode::Silent, UpMode::Error, UpMode::Answer], defer, max_burst: None, sequential: true });
+            v.push(ComboCfg { lb, plan: vec![0, 1], ups: vec![UpMode::Silent, UpMode::Error, UpMode::Answer], defer, max_burst: None, sequential: true, defer_rcode: false });
+        }
+    }
+    // upstreams answering REFUSED / SERVFAIL, with and without deferring such answers
+    for lb in [false, true] {
+        for defer_rcode in [false, true] {
+            for ups in [vec![UpMode::Refused, UpMode::Answer], vec![UpMode::Answer, UpMode::ServFail], vec![UpMode::ServFail, UpMode::Refused], vec![UpMode::Refused, UpMode::Error]] {
+                v.push(ComboCfg { lb, plan: vec![0], ups, defer: defer_rcode, max_burst: None, sequential: false, defer_rcode });
+            }
         }
     }
     // load balancer whose only upstream has used up its burst
-    v.push(ComboCfg { lb: true, plan: vec![0, 0], ups: vec![UpMode::Answer], defer: false, max_burst: Some(0), sequential: true });
+    v.push(ComboCfg { lb: true, plan: vec![0, 0], ups: vec![UpMode::Answer], defer: false, max_burst: Some(0), sequential: true, defer_rcode: false });
     v
 }
 
@@ -3241,6 +4004,9 @@ fn main() {
         &[
             "reply grammar offered by the mock peers under the request's ID: RCODE {NOERROR, SERVFAIL, NXDOMAIN, REFUSED} x question {the request's, another name, the request's name with another type, empty, empty with one answer record} x TC {0,1} (40 shapes incl. the intact answer), plus QR=0; under a wrong ID: every RCODE x question {same, empty}; stream additionally: late/re-sent answers and error replies (3 error RCODEs) for closed requests, which meet recycled slots. Full product for every open/waiting request in cases with <= 2 callers, for the oldest one in 3-caller cases; three representative shapes in the 6-caller case; dgram_stream/multi_stream: NXDOMAIN x {other name, empty, empty+record} x TC",
             "oracle exemption: a reply with RCODE != 0 and all four section counts zero is accepted on the ID alone (this is what RequestMessage::is_answer documents: 'If the result is an error, then the question section can be empty. In that case we require all other sections to be empty as well.'); every other Ok must carry the request's question",
+            "multi-response requests (stream_xfr cases): one AXFR or IXFR request (RequestMessageMulti; IXFR answered with the single SOA, AXFR style, or incrementally), optionally sharing the connection with an ordinary request; the peer chooses how many records go into each message and whether later messages repeat the question, interleaves the ordinary answer, and can send: another question, REFUSED, a header-only error, a non-SOA first record, an unrelated SOA, either caller's message under the other's ID, an unknown ID, a message after the end, EOF, a short frame. Oracle: every message handed to the transfer's caller is one the peer sent under its ID, in order, none twice; the first one carries the question (or is a header-only error); a well-formed transfer on a healthy connection is handed over completely, followed by exactly one end-of-stream; the stream always ends. An IXFR whose first message holds only the first SOA is ambiguous (RFC 1995) and either reading is accepted",
+            "requests with EDNS data (stream and dgram cases marked edns): base message with an additional record and an OPT, then set_dnssec_ok, add_opt(NSID), set_udp_payload_size through ComposeRequest; the request on the wire must keep the question and the additional record and carry exactly one OPT with DO, NSID and the expected payload size (the caller's 1400 on streams and when dgram's own size is None, dgram's 1232 otherwise)",
+            "answers with an edns-tcp-keepalive option (timeout 0 and 2 s) are in the stream reply menu (<= 2 callers); dgram config paths: udp_payload_size None, recv_size 20 (answers arrive cut and must be ignored), max_parallel 0 (clamped to 1), budget taken from the config getters; redundant/load_balancer: upstreams answering REFUSED/SERVFAIL with defer_refused+defer_servfail off (returned at once) and on (returned only after every upstream has been tried and has finished, a proper answer wins)",
             "at most 3 deviations from the default environment per execution (2 in quick); at most 3 concurrent requests (one 6-request two-wave stream case with 4 concurrent)",
             "stream timeouts run on tokio's paused clock (feature verif-hooks of /repo); budget of a stream request = response_timeout + 1 ms from submission (1 ms timer resolution and the transport's strict `elapsed > response_timeout`)",
             "the time step that lands exactly on timer start + 19 s (effective response timeout) is not offered: Transport::run then loops on a zero-length sleep until the clock moves, which never happens under the frozen clock (artefact of the paused clock, not counted as a violation); step lengths are chosen so that no sum of steps hits that instant; a watchdog (30 s) reports any execution that does not terminate",
